@@ -87,8 +87,29 @@ package http2
 //@   ensures [C20:control-first] len(old(ws.zero.s)) > 0 ==> ok && wr == old(ws.zero.s)[0] && ws.zero.s == old(ws.zero.s)[1:]
 //@   loop 1 invariant len(ws.zero.s) == 0 && ws.zero.s == old(ws.zero.s) && rwsInv(ws)
 
-//@ -- round-robin scheduler: control frames in `control`, per-stream queues in a ring (ring shape: bounded stand-in)
-//@ pure func rrInv(ws *roundRobinWriteScheduler) bool = ws.streams != nil && wfQueue(ws.control) && poolOK(ws.queuePool) && (forall id uint32 :: mapHas(ws.streams, id) && mapGet(ws.streams, id) != nil ==> mapGet(ws.streams, id) != ws.control && wfQueue(mapGet(ws.streams, id)))
+//@ -- round-robin scheduler: control frames in `control`, per-stream queues in a doubly linked ring.
+//@ -- ghost: membership in the ring. The invariant below is the local shape of a doubly linked ring, closed under
+//@ -- next/prev; that the ring is ONE cycle containing exactly the map's queues is covered by the bounded stand-in.
+//@ ghostfield writeQueue.inRing bool
+//@ pure func ringOK(ws *roundRobinWriteScheduler) bool = (ws.head != nil ==> ws.head.inRing) && (forall q *writeQueue :: q.inRing ==> q != nil && q != ws.control && q.next != nil && q.prev != nil && q.next.inRing && q.prev.inRing && q.next.prev == q && q.prev.next == q && wfQueue(q)) && (forall id uint32 :: mapHas(ws.streams, id) && mapGet(ws.streams, id) != nil ==> mapGet(ws.streams, id).inRing) && (forall i int :: 0 <= i && i < len(ws.queuePool) ==> !ws.queuePool[i].inRing)
+//@ pure func rrInv(ws *roundRobinWriteScheduler) bool = ws.streams != nil && wfQueue(ws.control) && !ws.control.inRing && poolOK(ws.queuePool) && ringOK(ws)
+
+//@ func (*roundRobinWriteScheduler).OpenStream :: ws, streamID, options
+//@   props C20,C10
+//@   requires ws != nil && rrInv(ws)
+//@   requires [C20:stream-not-open-twice] !mapHas(ws.streams, streamID) || mapGet(ws.streams, streamID) == nil
+//@   ghostset q.inRing = true
+//@   ensures [C20:ring-shape-kept] rrInv(ws)
+//@   ensures [C20:new-stream-has-empty-queue-in-ring] mapHas(ws.streams, streamID) && mapGet(ws.streams, streamID) != nil && mapGet(ws.streams, streamID).inRing && len(mapGet(ws.streams, streamID).s) == 0
+//@   ensures [C20:other-streams-untouched] forall id uint32 :: id != streamID ==> (mapHas(ws.streams, id) <==> old(mapHas(ws.streams, id))) && mapGet(ws.streams, id) == old(mapGet(ws.streams, id))
+
+//@ func (*roundRobinWriteScheduler).CloseStream :: ws, streamID
+//@   props C20,C10
+//@   requires ws != nil && rrInv(ws)
+//@   ghostset q.inRing = false
+//@   ensures [C20:ring-shape-kept] rrInv(ws)
+//@   ensures [C20:closed-stream-forgotten] !mapHas(ws.streams, streamID)
+//@   ensures [C20:other-streams-untouched] forall id uint32 :: id != streamID ==> (mapHas(ws.streams, id) <==> old(mapHas(ws.streams, id))) && mapGet(ws.streams, id) == old(mapGet(ws.streams, id)) && (mapHas(ws.streams, id) && mapGet(ws.streams, id) != nil && mapGet(ws.streams, id) != old(mapGet(ws.streams, streamID)) ==> mapGet(ws.streams, id).s == old(mapGet(ws.streams, id).s))
 
 //@ func (*roundRobinWriteScheduler).Push :: ws, wr
 //@   props C20,C10
@@ -103,4 +124,4 @@ package http2
 //@   requires ws != nil && rrInv(ws)
 //@   ensures [C20:control-first] len(old(ws.control.s)) > 0 ==> ok && wr == old(ws.control.s)[0] && ws.control.s == old(ws.control.s)[1:]
 //@   ensures [C20:nothing-without-streams] len(old(ws.control.s)) == 0 && old(ws.head) == nil ==> !ok
-//@   loop 1 invariant len(ws.control.s) == 0 && ws.control.s == old(ws.control.s) && rrInv(ws) && q != nil && wfQueue(q)
+//@   loop 1 invariant len(ws.control.s) == 0 && ws.control.s == old(ws.control.s) && rrInv(ws) && q != nil && q.inRing
